@@ -1,5 +1,5 @@
 (* Extraction of the iv_signal transition system and monitor for the C10 check. *)
 From Coq Require Import ExtrOcamlBasic.
 From Ivv Require Import MT.SignalModel.
-Extraction "signal_model.ml" SignalModel.init SignalModel.step SignalModel.reject_pos SignalModel.accepts
+Extraction "signal_model.ml" SignalModel.init SignalModel.step_gen SignalModel.reject_pos SignalModel.accepts
   SignalModel.monitor SignalModel.mon_pos SignalModel.minit.
